@@ -141,3 +141,5 @@ func errClass(err error) string {
 	}
 	return "err:" + sb.String()
 }
+
+type syncMutex = sync.Mutex
